@@ -44,10 +44,9 @@ def main():
         if only and sid not in only:
             continue
         jobs.append((sid, os.path.join(os.path.dirname(meta), "patch.diff"), pids))
-    with ProcessPoolExecutor(max_workers=16) as ex:
-        results = list(ex.map(one, jobs))
+    ex = ProcessPoolExecutor(max_workers=16)
     missed = []
-    for sid, res, err in results:
+    for sid, res, err in ex.map(one, jobs):
         mp = os.path.join(VERIF, "seeded", sid, "meta.json")
         m = json.load(open(mp))
         v = m.setdefault("verification", {})
@@ -64,7 +63,7 @@ def main():
             flag = "" if own in det else ("  (own check silent)" if det else "  ** MISSED **")
             if not det:
                 missed.append(sid)
-            print(f"{sid:8s} property={own} detected_by={det} errors={errs}{flag}")
+            print(f"{sid:8s} property={own} detected_by={det} errors={errs}{flag}", flush=True)
         json.dump(m, open(mp, "w"), indent=1)
     print("missed:", missed)
 
